@@ -56,6 +56,17 @@ func SaveDir(c *chart.Chart, dest string) error {
 		return err
 	}
 
+	// Save Chart.lock
+	if c.Metadata.APIVersion == chart.APIVersionV2 && c.Lock != nil {
+		ldata, err := yaml.Marshal(c.Lock)
+		if err != nil {
+			return err
+		}
+		if err := writeFile(filepath.Join(outdir, "Chart.lock"), ldata); err != nil {
+			return err
+		}
+	}
+
 	// Save values.yaml
 	for _, f := range c.Raw {
 		if f.Name == ValuesfileName {
